@@ -5,6 +5,7 @@ import (
 	"net"
 	"sync"
 	"sync/atomic"
+	"syscall"
 	"time"
 )
 
@@ -16,6 +17,7 @@ type Proxy struct {
 	mu     sync.Mutex
 	conns  []*ProxyConn
 	closed bool
+	rcvBuf int
 }
 
 // ProxyConn is one proxied connection.
@@ -28,6 +30,18 @@ type ProxyConn struct {
 	Opened         time.Time
 	closed         bool
 	stallC2S       int32
+	stallS2C       int32
+	poll           bool
+}
+
+// StallS2C stops (or resumes) forwarding the server's bytes: with a small receive buffer on the proxy's server leg
+// (NewProxyOpts), what the server writes next stays in the server's own send queue.
+func (pc *ProxyConn) StallS2C(on bool) {
+	v := int32(0)
+	if on {
+		v = 1
+	}
+	atomic.StoreInt32(&pc.stallS2C, v)
 }
 
 // StallC2S stops (or resumes) forwarding the client's bytes: the proxy no longer reads from the client, so the
@@ -40,12 +54,16 @@ func (pc *ProxyConn) StallC2S(on bool) {
 	atomic.StoreInt32(&pc.stallC2S, v)
 }
 
-func NewProxy(target string) (*Proxy, error) {
+func NewProxy(target string) (*Proxy, error) { return NewProxyOpts(target, 0) }
+
+// NewProxyOpts: serverLegRcvBuf > 0 sets the receive buffer of the proxy's connection to the server before it
+// connects (a small advertised window).
+func NewProxyOpts(target string, serverLegRcvBuf int) (*Proxy, error) {
 	ln, err := net.Listen("tcp", "127.0.0.1:0")
 	if err != nil {
 		return nil, err
 	}
-	p := &Proxy{ln: ln, target: target}
+	p := &Proxy{ln: ln, target: target, rcvBuf: serverLegRcvBuf}
 	go p.loop()
 	return p, nil
 }
@@ -58,13 +76,22 @@ func (p *Proxy) loop() {
 		if err != nil {
 			return
 		}
-		s, err := net.DialTimeout("tcp", p.target, 5*time.Second)
+		d := net.Dialer{Timeout: 5 * time.Second}
+		if p.rcvBuf > 0 {
+			rb := p.rcvBuf
+			d.Control = func(network, address string, c syscall.RawConn) error {
+				return c.Control(func(fd uintptr) {
+					_ = syscall.SetsockoptInt(int(fd), syscall.SOL_SOCKET, syscall.SO_RCVBUF, rb)
+				})
+			}
+		}
+		s, err := d.Dial("tcp", p.target)
 		if err != nil {
 			_ = c.Close()
 			continue
 		}
 		p.mu.Lock()
-		pc := &ProxyConn{Index: len(p.conns), client: c, server: s, Opened: time.Now()}
+		pc := &ProxyConn{Index: len(p.conns), client: c, server: s, Opened: time.Now(), poll: p.rcvBuf > 0}
 		p.conns = append(p.conns, pc)
 		p.mu.Unlock()
 		go pc.copy(true)
@@ -79,7 +106,7 @@ func (pc *ProxyConn) copy(c2s bool) {
 	}
 	buf := make([]byte, 32*1024)
 	for {
-		for c2s && atomic.LoadInt32(&pc.stallC2S) == 1 {
+		for (c2s && atomic.LoadInt32(&pc.stallC2S) == 1) || (!c2s && atomic.LoadInt32(&pc.stallS2C) == 1) {
 			time.Sleep(5 * time.Millisecond)
 			pc.mu.Lock()
 			closed := pc.closed
@@ -88,7 +115,14 @@ func (pc *ProxyConn) copy(c2s bool) {
 				return
 			}
 		}
+		if pc.poll {
+			// a blocked Read would let one more chunk through after a stall was requested
+			_ = src.SetReadDeadline(time.Now().Add(3 * time.Millisecond))
+		}
 		n, err := src.Read(buf)
+		if ne, ok := err.(net.Error); ok && ne.Timeout() && pc.poll {
+			err = nil
+		}
 		if n > 0 {
 			pc.mu.Lock()
 			if c2s {
